@@ -1,7 +1,7 @@
 (* Obligation C10/cache_coherent_from_start.  Statement as printed by Coq from Inferno.C10.WorldProofs; proof by reference.
    This file contains nothing else, so the statement cannot be weakened quietly. *)
 From Coq Require Import List ZArith Bool Arith Reals Lra Lia Permutation.
-From Inferno Require Import Base.Num Base.NumR Gen.Bounding C10.Updater C10.KernelProofs C10.AccProofs C10.OrderProofs C10.WorldProofs C10.UpdateProofs C10.InterleaveProofs.
+From Inferno Require Import Base.Num Base.NumR Gen.Bounding C10.Updater C10.KernelAlgebra C10.AccProofs C10.OrderProofs C10.WorldProofs.
 Import ListNotations.
 Open Scope R_scope.
 Theorem cache_coherent_from_start : forall (ps : list (Z * tensorW)) (ops : list opR) (us : list (Z * accR)) (nm : Z) (a : accR),
